@@ -173,6 +173,8 @@ def alias_checks(ctx, S):
         c = S.COMMANDS[name]
         for i in range(150):
             a, _ = DO.GEN[c.custom](rng)
+            if i % 2:
+                a = to_bytearrays(a)  # callers (and the library's own tests) pass mutable bytearrays
             pristine = copy.deepcopy(a)
             ctx.case(("alias", name, repr(a)), True, sample={"cmd": name, "reuse": "same argument dictionaries for two commands"} if ctx.want_sample() else None)
             try:
@@ -228,6 +230,16 @@ def alias_checks(ctx, S):
             ctx.count("repeat_marshall_calls")
             if not (b1 == b2 == b3):
                 ctx.fail("C09:marshalling_not_repeatable.%s" % fname, "%s.marshall_datain with equal inputs gave different bytes" % fname, {"format": fname})
+
+
+def to_bytearrays(x):
+    if isinstance(x, bytes):
+        return bytearray(x)
+    if isinstance(x, dict):
+        return {k: to_bytearrays(v) for k, v in x.items()}
+    if isinstance(x, list):
+        return [to_bytearrays(v) for v in x]
+    return x
 
 
 def sched_runs(ctx, S, shard, base, args):
